@@ -1074,7 +1074,17 @@ func c06EnumListComplete(c *Ctx, rid string) {
 		}
 		ast.Inspect(decl.Body, func(nd ast.Node) bool {
 			rs, ok := nd.(*ast.RangeStmt)
-			if !ok || !strings.HasSuffix(types.ExprString(rs.X), ".Enum.Values") {
+			if !ok {
+				return true
+			}
+			// a loop over an enum's values, whatever the enum is reached through (field.Enum.Values, a parameter's .Values)
+			isEnumValues := false
+			if t := info.TypeOf(rs.X); t != nil {
+				if sl, ok := t.Underlying().(*types.Slice); ok && typeIsNamed(sl.Elem(), "compiler/protogen", "EnumValue") {
+					isEnumValues = true
+				}
+			}
+			if !isEnumValues {
 				return true
 			}
 			// does the loop fill an `Enum` list?
@@ -1115,7 +1125,6 @@ func c06EnumListComplete(c *Ctx, rid string) {
 				}
 				return true
 			})
-			_ = info
 			key := fmt.Sprintf("%s: loop %d over %s lists every value in the schema's enum", nf.name, n, types.ExprString(rs.X))
 			r.Check(topLevel && early == "", rid, key, c.P.Pos(rs.Pos()),
 				fmt.Sprintf("%s fills the schema's enum list from %s but not with every value (append unconditional in the loop body: %v; early exit: %q): a value that is left out is still written by the generated servers and clients — in repeated fields, map values, optional fields, oneof members — and fails the published enum", nf.name, types.ExprString(rs.X), topLevel, early))
